@@ -102,7 +102,16 @@ def _apply_slot_to_stack(
         if set(op.getSlots()).issubset(skip_slots):
             continue
 
-        next_op = cur_block.ops[i + 1]
+        # comments are not executable: the op that runs after the store is the next op that is not a comment
+        next_pos = i + 1
+        while (
+            next_pos < len(cur_block.ops) - 1
+            and type(cur_block.ops[next_pos]) is TealOp
+            and cur_block.ops[next_pos].op == Op.comment
+        ):
+            next_pos += 1
+
+        next_op = cur_block.ops[next_pos]
         if type(next_op) is not TealOp or next_op.op != Op.load:
             continue
 
@@ -114,7 +123,7 @@ def _apply_slot_to_stack(
         if cur_slots[0] != next_slots[0]:
             continue
 
-        if not _has_load_dependencies(cur_block, start, cur_slots[0], i + 1):
+        if not _has_load_dependencies(cur_block, start, cur_slots[0], next_pos):
             slots_to_remove.add(cur_slots[0])
 
     _remove_extraneous_slot_access(start, slots_to_remove)
